@@ -137,11 +137,11 @@ func (in *c01inst) Key() string {
 	}
 	sb.WriteString(lib.Canon(in.dis))
 	sb.WriteString("|")
-	sb.WriteString(core.VerifDumpJSON(in.loc.VerifState()))
+	sb.WriteString(core.VerifKeyJSON(in.loc.VerifState()))
 	sb.WriteString(lib.Canon(lib.Pairs(in.ctx, in.store, "L")))
 	if in.parent {
 		sb.WriteString("|")
-		sb.WriteString(core.VerifDumpJSON(in.ploc.VerifState()))
+		sb.WriteString(core.VerifKeyJSON(in.ploc.VerifState()))
 		sb.WriteString(lib.Canon(lib.Pairs(in.ctx, in.store, "P")))
 	}
 	return sb.String()
